@@ -60,7 +60,8 @@ func drawExtras(tp *kernel.Tape) []string {
 // C16: connection metadata given to the application is exactly what the node sent.
 func propC16(r *kernel.Run) {
 	tp := r.Tape
-	srv := NewWorld(r, "server", Pick2(tp, "inmem", "storeonce"), tp.Draw(2) == 0, tp.Draw(3) == 0)
+	loader := tp.Draw(2) == 0
+	srv := NewWorld(r, "server", Pick2(tp, "inmem", "storeonce"), tp.Draw(2) == 0, loader)
 	if _, err := rotation.RotateRootCertificates(srv.Ctx, srv.Storage, srv.Opts()...); err != nil {
 		r.HarnessErr("roots: %v", err)
 	}
@@ -68,11 +69,15 @@ func propC16(r *kernel.Run) {
 	w.Net.Frag = tp.Draw(3) == 0
 	w.StartAcceptor("acceptor")
 	nodeW := NewWorld(r, "node", "inmem", tp.Draw(2) == 0, false)
-	creds, id := enrollStored(r, srv, nodeW, nil, "")
+	nodeID := ""
+	if loader {
+		nodeID = "nid-16"
+	}
+	creds, id := enrollStored(r, srv, nodeW, nil, nodeID)
 	ncon := tp.Range(2, 6)
 	for ci := 0; ci < ncon; ci++ {
 		if tp.Draw(4) == 0 {
-			c16Adversary(r, tp, w, creds, id)
+			c16Adversary(r, tp, w, creds, id, nodeID)
 			continue
 		}
 		stateKind := Pick2(tp, "absent", "empty", "flat", "nested", "medium")
@@ -163,7 +168,7 @@ func propC16(r *kernel.Run) {
 }
 
 // c16Adversary: a registered key holder sends client state that is unsigned or carries a forged signature.
-func c16Adversary(r *kernel.Run, tp *kernel.Tape, w *Wire, creds *types.NodeCredentials, id *Ident) {
+func c16Adversary(r *kernel.Run, tp *kernel.Tape, w *Wire, creds *types.NodeCredentials, id *Ident, nodeID string) {
 	nonce := make([]byte, 32)
 	rand.Read(nonce)
 	sb := detMarshal(mkStruct(r, 2))
@@ -177,6 +182,10 @@ func c16Adversary(r *kernel.Run, tp *kernel.Tape, w *Wire, creds *types.NodeCred
 		req.ClientStateSignature = ed25519.Sign(k, sb)
 	}
 	req.SkipVerification = strings.HasSuffix(kind, "+skip")
+	if nodeID != "" && tp.Draw(2) == 0 {
+		req.NodeId = nodeID // lookup by node ID instead of key ID
+		kind += "/via-node-id"
+	}
 	rb, _ := proto.Marshal(req)
 	alpn := chunkALPN(nodeenrollment.AuthenticateNodeNextProtoV1Prefix, base64.RawStdEncoding.EncodeToString(rb))
 	b := creds.CertificateBundles[0]
@@ -192,7 +201,7 @@ func c16Adversary(r *kernel.Run, tp *kernel.Tape, w *Wire, creds *types.NodeCred
 		}
 		if a.err == nil && a.conn != nil && strings.HasPrefix(a.negotiated, nodeenrollment.AuthenticateNodeNextProtoV1Prefix) {
 			if a.conn.ClientState() != nil {
-				r.Violate("client-state", "unverified-state-exposed/"+strings.TrimSuffix(kind, "+skip"), "client state whose signature is %s was delivered to the application", kind)
+				r.Violate("client-state", "unverified-state-exposed/"+strings.TrimSuffix(strings.TrimSuffix(kind, "/via-node-id"), "+skip"), "client state whose signature is %s was delivered to the application", kind)
 			}
 			r.Violate("client-state", "connection-with-unverified-state", "a connection carrying client state with %s signature was authenticated", kind)
 		}
